@@ -131,6 +131,39 @@ class Installation:
         return self.m["ext"].ExtendedMessage(self.m["err"].AcErrorInformationMessage(ac, self.errors.get(ac)))
 
 
+# every message a scripted console has framed in this process, with the payload the package's encoder produced
+FRAMED: dict = {4: {}, 5: {}}
+
+
+def verify_framed(ck) -> int:
+    """The scripted consoles build their frames with the package's own encoders; a change that alters encoder and
+    decoder alike would be invisible to a client talking to such a console.  So every message framed during this
+    check is encoded by the protocol model too (Codec4.v / Codec5.v, proved to conform to the vendor documents):
+    the payloads must be byte-identical, otherwise the client was not talking to the protocol."""
+    from . import codec_tie
+    n = 0
+    for gen in (4, 5):
+        items = list(FRAMED[gen].values())
+        FRAMED[gen].clear()
+        if not items:
+            continue
+        for (m, payload), (_, r, fl, mis) in zip(items, codec_tie.encode_cases(gen, [m for m, _ in items])):
+            n += 1
+            if fl is None:
+                continue
+            if mis is None and r[0] == "ok" and bytes(r[2]) != payload:
+                mis = {"console_payload": payload.hex(), "now": bytes(r[2]).hex()}
+            if mis is not None:
+                ck.violation("a frame the scripted console sent (built by the package's encoder) is not the protocol's encoding of that message",
+                             {"kind": "console-frame", "gen": gen, "message": repr(m)[:300], "disagreement": mis,
+                              "trigger": {"class": "console-frame", "gen": gen, "message_type": type(getattr(m, "sub_message", m)).__name__},
+                              "failure": "the package's encoder and the protocol model (coq/at%d/Codec%d.v) produce different bytes for this message; "
+                                         "a console following the documents would be misread" % (gen, gen)})
+                break
+    ck.extra["console_frames_verified"] = ck.extra.get("console_frames_verified", 0) + n
+    return n
+
+
 class Console:
     """Reads what the client wrote on the current connection and answers."""
 
@@ -158,6 +191,7 @@ class Console:
         r = self.c.impl_encode(msg)
         if r[0] != "ok":
             raise RuntimeError(f"console cannot encode {msg!r}: {r}")
+        FRAMED[self.gen].setdefault(repr(msg), (msg, bytes(r[2])))
         frm = 0x90 if msg.message_id == 0x1F else 0x80
         return sockrun.build_frame(self.gen, to, frm, pid, msg.message_id, r[2])
 
